@@ -902,7 +902,8 @@ def offset_labels(labels: np.ndarray, ngroups: int) -> tuple[np.ndarray, int]:
 
 def _factorize_single(by, expect, *, sort: bool, reindex: bool) -> tuple[pd.Index, np.ndarray]:
     flat = by.reshape(-1)
-    if isinstance(expect, pd.RangeIndex):
+    if isinstance(expect, pd.RangeIndex) and expect.start == 0 and expect.step == 1:
+        # the labels are their own codes (any other RangeIndex is handled like a general Index below)
         # idx is a view of the original `by` array
         # copy here so we don't have a race condition with the
         # group_idx[nanmask] = nan_sentinel assignment later
@@ -912,7 +913,11 @@ def _factorize_single(by, expect, *, sort: bool, reindex: bool) -> tuple[pd.Inde
         found_groups = cast(pd.Index, expect)
         # TODO: fix by using masked integers
         if len(expect) > 0:
-            idx[idx > expect[-1]] = -1
+            idx[(idx > expect[-1]) | (idx < 0)] = -1
+            if idx.dtype.kind == "f":
+                # missing labels and labels that are not whole numbers are not in the range
+                idx[~(idx == np.floor(idx))] = -1
+                idx = idx.astype(np.intp)
         else:
             # no group at all (e.g. every label is missing)
             idx[:] = -1
@@ -2357,6 +2362,9 @@ def _convert_expected_groups_to_index(
     out: list[T_ExpectIndexOpt] = []
     for ex, isbin_ in zip(expected_groups, isbin):
         if isinstance(ex, pd.IntervalIndex) or (isinstance(ex, pd.Index) and not isbin_):
+            if isinstance(ex, pd.RangeIndex) and not (ex.start == 0 and ex.step == 1):
+                # only RangeIndex(n) is treated as the list of integer codes 0..n-1
+                ex = pd.Index(ex.to_numpy())
             if sort:
                 out.append(ex.sort_values())
             else:
